@@ -51,3 +51,233 @@ class LoopbackTransport(object):
 
     def close(self):
         pass
+
+
+# ---------------------------------------------------------------------------
+# raw-socket HTTP peer (server role): records what it receives exactly as
+# received, answers according to a per-request decision callback.
+
+import json as _json
+import os as _os
+import shutil as _shutil
+import socket as _socket
+import struct as _struct
+import tempfile as _tempfile
+import threading as _threading
+import time as _time
+
+
+class Request(object):
+    __slots__ = ("line", "method", "target", "headers", "body", "conn_id", "seq", "raw_head")
+
+    def header(self, name, default=None):
+        vals = [v for k, v in self.headers if k.lower() == name.lower()]
+        return vals[-1] if vals else default
+
+    def headers_named(self, name):
+        return [v for k, v in self.headers if k.lower() == name.lower()]
+
+
+def healthy_reply(req, extra_headers=(), keep_alive=True, gzip_body=False, content_type="application/json-rpc"):
+    """A correct JSON-RPC reply computed from the request actually received: echoes the token (params[0])."""
+    try:
+        msg = _json.loads(req.body.decode("utf-8"))
+    except ValueError:
+        msg = None
+    if isinstance(msg, list):
+        payload = [{"jsonrpc": "2.0", "id": m.get("id"), "result": {"token": (m.get("params") or [None])[0]}}
+                   for m in msg if isinstance(m, dict) and m.get("id") is not None]
+        text = _json.dumps(payload) if payload else ""
+    elif isinstance(msg, dict) and msg.get("id") is not None:
+        params = msg.get("params") or [None]
+        tok = params[0] if isinstance(params, list) else params.get("token")
+        reply = {"id": msg["id"], "result": {"token": tok}}
+        if "jsonrpc" in msg:
+            reply["jsonrpc"] = "2.0"
+        else:
+            reply["error"] = None
+        text = _json.dumps(reply)
+    else:
+        text = ""
+    body = text.encode("utf-8")
+    return http_response(200, "OK", body, extra_headers, keep_alive, gzip_body, content_type)
+
+
+def http_response(status, reason, body, extra_headers=(), keep_alive=True, gzip_body=False,
+                  content_type="application/json-rpc", content_length=True):
+    head = ["HTTP/1.1 %d %s" % (status, reason), "Content-Type: %s" % content_type]
+    if gzip_body:
+        import gzip
+        body = gzip.compress(body)
+        head.append("Content-Encoding: gzip")
+    if content_length:
+        head.append("Content-Length: %d" % len(body))
+    head.append("Connection: %s" % ("keep-alive" if keep_alive else "close"))
+    for k, v in extra_headers:
+        head.append("%s: %s" % (k, v))
+    return ("\r\n".join(head) + "\r\n\r\n").encode("latin-1") + body
+
+
+class Peer(object):
+    """
+    decide(req) -> action dict:
+      {"send": bytes, "close": bool}          reply (possibly partial) and keep or close the connection
+      {"drop": True}                          close without a reply
+      {"reset": True}                         abortive close (SO_LINGER 0)
+    """
+
+    def __init__(self, family="tcp", decide=None):
+        self.family = family
+        self.decide = decide or (lambda req: {"send": healthy_reply(req), "close": False})
+        self.requests = []
+        self.lock = _threading.Lock()
+        self.connections = 0
+        self.tmpdir = None
+        self._stop = False
+        self._listen()
+        self.refusing = _threading.Event()      # set: the listener is closed
+        self._want_refuse = False
+        self._ack = _threading.Event()
+        self.thread = _threading.Thread(target=self._accept_loop, name="vf-peer-accept")
+        self.thread.daemon = True
+        self.thread.start()
+
+    def _listen(self):
+        if self.family == "unix":
+            if self.tmpdir is None:
+                self.tmpdir = _tempfile.mkdtemp(prefix="vfp-")
+                self.path = _os.path.join(self.tmpdir, "p.sock")
+            if _os.path.exists(self.path):
+                _os.unlink(self.path)
+            s = _socket.socket(_socket.AF_UNIX, _socket.SOCK_STREAM)
+            s.bind(self.path)
+            self.addr = self.path
+        else:
+            s = _socket.socket(_socket.AF_INET, _socket.SOCK_STREAM)
+            s.setsockopt(_socket.SOL_SOCKET, _socket.SO_REUSEADDR, 1)
+            port = getattr(self, "port", 0)
+            s.bind(("127.0.0.1", port))
+            self.port = s.getsockname()[1]
+            self.addr = ("127.0.0.1", self.port)
+        s.listen(64)
+        s.settimeout(0.02)
+        self.sock = s
+
+    @property
+    def url(self):
+        if self.family == "unix":
+            return "unix+http://" + self.path
+        return "http://127.0.0.1:%d" % self.port
+
+    # the listener is owned by the accept thread: refuse()/accept_again() are acknowledged requests
+    def refuse(self):
+        self._ack.clear()
+        self._want_refuse = True
+        self._ack.wait(5)
+
+    def accept_again(self):
+        self._ack.clear()
+        self._want_refuse = False
+        self._ack.wait(5)
+
+    def _accept_loop(self):
+        while not self._stop:
+            if self._want_refuse and self.sock is not None:
+                self.sock.close()
+                self.sock = None
+                if self.family == "unix" and _os.path.exists(self.path):
+                    _os.unlink(self.path)
+                self.refusing.set()
+                self._ack.set()
+            elif not self._want_refuse and self.sock is None:
+                self._listen()
+                self.refusing.clear()
+                self._ack.set()
+            elif not self._ack.is_set():
+                self._ack.set()
+            if self.sock is None:
+                _time.sleep(0.002)
+                continue
+            try:
+                conn, _ = self.sock.accept()
+            except (_socket.timeout, OSError):
+                continue
+            with self.lock:
+                self.connections += 1
+                cid = self.connections
+            t = _threading.Thread(target=self._serve, args=(conn, cid), name="vf-peer-conn%d" % cid)
+            t.daemon = True
+            t.start()
+
+    def _serve(self, conn, cid):
+        conn.settimeout(30)
+        buf = b""
+        try:
+            while True:
+                while b"\r\n\r\n" not in buf:
+                    data = conn.recv(65536)
+                    if not data:
+                        return
+                    buf += data
+                head, _, rest = buf.partition(b"\r\n\r\n")
+                lines = head.split(b"\r\n")
+                req = Request()
+                req.raw_head = head
+                req.line = lines[0].decode("latin-1")
+                parts = req.line.split(" ")
+                req.method = parts[0]
+                req.target = parts[1] if len(parts) > 1 else ""
+                req.headers = []
+                for ln in lines[1:]:
+                    k, _, v = ln.partition(b":")
+                    req.headers.append((k.decode("latin-1"), v.decode("latin-1").strip()))
+                try:
+                    length = int(req.header("Content-Length", "0"))
+                except ValueError:
+                    length = 0
+                while len(rest) < length:
+                    data = conn.recv(65536)
+                    if not data:
+                        break
+                    rest += data
+                req.body = rest[:length]
+                buf = rest[length:]
+                req.conn_id = cid
+                with self.lock:
+                    req.seq = len(self.requests)
+                    self.requests.append(req)
+                action = self.decide(req)
+                if action.get("reset"):
+                    conn.setsockopt(_socket.SOL_SOCKET, _socket.SO_LINGER, _struct.pack("ii", 1, 0))
+                    return
+                if action.get("drop"):
+                    return
+                if action.get("send"):
+                    conn.sendall(action["send"])
+                if action.get("close", False):
+                    try:
+                        conn.shutdown(_socket.SHUT_WR)
+                    except OSError:
+                        pass
+                    return
+        except (OSError, _socket.timeout):
+            return
+        finally:
+            try:
+                conn.close()
+            except OSError:
+                pass
+
+    def take(self):
+        with self.lock:
+            out = self.requests[:]
+            del self.requests[:]
+        return out
+
+    def close(self):
+        self._stop = True
+        self.thread.join(2)
+        if self.sock is not None:
+            self.sock.close()
+        if self.tmpdir:
+            _shutil.rmtree(self.tmpdir, ignore_errors=True)
